@@ -74,7 +74,8 @@ KINDS = ["np", "pay", "view", "default", "getter", "unprot", "viaint",
          "kw1", "kw2", "rawnp", "rawst", "libnp", "libview", "libint"]
 # kinds with a single exit shape (the exit parameter is ignored for them)
 FIXED_EXIT = ("kw1", "kw2", "rawnp", "rawst", "libnp", "libview", "libint")
-EXITS = ["fall", "retbranch", "retloop", "retint", "assert", "raise", "subfail"]
+EXITS = ["fall", "retbranch", "retloop", "retint", "assert", "raise", "subfail", "deep"]
+# "deep": the external call happens two INTERNAL levels below the protected function (f -> self._a -> self._b -> extcall)
 EXIT_CODE = {x: i for i, x in enumerate(EXITS)}
 
 
@@ -127,6 +128,10 @@ def _main_source(pragma):
     # helpers for retint: internal function doing the callback
     L.append("@internal\ndef _inner(p: uint256) -> uint256:\n    r: uint256 = self._mix(extcall A(self.att).cb(p))\n    if r > 0:\n        return r\n    return 0\n")
     L.append("@internal\n@view\ndef _innerv(p: uint256) -> uint256:\n    r: uint256 = self._mix(staticcall A(self.att).cbv(p))\n    if r > 0:\n        return r\n    return 0\n")
+    L.append("@internal\ndef _b(p: uint256) -> uint256:\n    return self._mix(extcall A(self.att).cb(p))\n")
+    L.append("@internal\ndef _a(p: uint256) -> uint256:\n    r: uint256 = self._b(p)\n    if r > 0:\n        return r\n    return 0\n")
+    L.append("@internal\n@view\ndef _bv(p: uint256) -> uint256:\n    return self._mix(staticcall A(self.att).cbv(p))\n")
+    L.append("@internal\n@view\ndef _av(p: uint256) -> uint256:\n    r: uint256 = self._bv(p)\n    if r > 0:\n        return r\n    return 0\n")
     for kind in ("np", "pay", "view", "unprot", "viaint"):
         view = kind == "view"
         for x in EXITS:
@@ -135,6 +140,8 @@ def _main_source(pragma):
             rett = "" if void else " -> uint256"
             if x == "retint":
                 body = [f"return self._inner{'v' if view else ''}(p)"]
+            elif x == "deep":
+                body = [f"return self._a{'v' if view else ''}(p)"]
             else:
                 body = [f"r: uint256 = self._mix({_call(view)})"] + fn_body(view, x, void)
             if kind == "viaint" and x == "raise":
@@ -160,7 +167,9 @@ def _main_source(pragma):
          "    a: uint256 = convert(slice(msg.data, 4, 32), uint256)",
          "    p: uint256 = a & 255",
          "    x: uint256 = a >> 8",
-         "    r: uint256 = self._mix(extcall A(self.att).cb(p))",
+         "    r: uint256 = 0",
+         "    if x == 7:", "        r = self._a(p)",
+         "    else:", "        r = self._mix(extcall A(self.att).cb(p))",
          "    if x == 1:", "        if r > 0:", "            return",
          "    if x == 2:", "        for i: uint256 in range(3):", "            if i == 1:", "                return",
          "    if x == 3:", "        self._void()", "        return",
@@ -269,7 +278,7 @@ def coq_node(n, pragma):
         return f"Call {n.c}%nat {k} (BSub ({coq_node(child, pragma)}) true true None (BEnd true))"
     if n.kind == "default":
         # x=fall: `self.sink = r`; x=retint: `self._void()` writes; other normal exits return before writing
-        end = "BWrite (BEnd false)" if x in ("fall", "retint") else "BEnd false"
+        end = "BWrite (BEnd false)" if x in ("fall", "retint", "deep") else "BEnd false"
     elif x == "fall":
         end = "BEnd false" if view else "BWrite (BEnd false)"
     else:
